@@ -251,7 +251,7 @@ def run_common(ctx, pid, extra_allowed=()):
     cases = data['cases']
     check_consts(ctx, data)
     if ok:
-        res, coq_ok, nchunks = correspond(ctx, cases, tag='corr')
+        res, coq_ok, nchunks = correspond(ctx, cases, tag='corr', workers=4 if ctx.quick else 8)
     else:
         res, coq_ok, nchunks = [None] * len(cases), False, 0
     report_all(ctx, pid, cases, res, coq_ok)
